@@ -956,7 +956,7 @@ def gen_cases(rng, tier):
                 c = _valid([cfg, [0, 0, 1, 1], [list(o) for o in sc]])
                 if c is not None:
                     cases.append({"in": _pack_case(c), "kind": "sweep"})
-    nrand = 12000 if tier == "thorough" else 1700
+    nrand = 12000 if tier == "thorough" else 1100
     maxops = 16 if tier == "thorough" else 12
     for _ in range(nrand):
         cases.append({"in": _pack_case(_guided(rng, maxops)), "kind": "guided"})
@@ -987,6 +987,8 @@ _EXC = {"InvalidRequestError": 1, "FlushError": 2}
 
 
 def _casc_str(mask):
+    if mask & 47 == 47:  # every option except delete-orphan: spelled "all" so that its expansion is exercised
+        return "all, delete-orphan" if mask & DO else "all"
     return ", ".join(o for i, o in enumerate(OPTS) if mask >> i & 1) or "none"
 
 
@@ -1339,6 +1341,30 @@ def match_finding(c, what):
     return None
 
 
-LEVEL_TEXT = "to be completed"
-LEVEL_NOTE = "to be completed"
-TECHNIQUE = "to be completed"
+LEVEL_TEXT = (
+    "Machine-checked proof (Coq) over the Gallina transcription of the cascade machinery: CascadeOptions parsing "
+    "(all / none / plain names / warning / every combination expressible; tables regenerated from the source); "
+    "cascade_iterator = reachability along relationships carrying the cascade, each object once, for every "
+    "object graph (cycles included) and halt predicate; exact closures of Session.add / delete / expunge / "
+    "expire for every state; the save-update-on-append guarantee with its defect region refuted by witness; "
+    "flush: outcome in terms of the unit-of-work registrations, orphan rule, marked objects are deleted, nothing "
+    "is deleted without justification (marked, orphan, delete-reachable from an orphan, many-to-one delete "
+    "cascade) - for EVERY order of the dependency processors; rows <-> object states and session.deleted "
+    "<= persistent as invariants over all operation histories (induction over the history)."
+)
+LEVEL_NOTE = (
+    "partial: one-to-many relationships with optional many-to-one backref only (no many-to-many, single_parent, "
+    "passive_deletes, post_update, self-referential or cyclic class graphs); merge cascade is covered by C45; "
+    "refresh is represented by expire (same cascade iterator); expire is the last operation of a compared "
+    "history; no rollback/commit; flush outcomes that depend on set iteration order and operations on objects "
+    "already deleted in the transaction are outside the compared region (the model flags them as unmodelled); "
+    "the foreign-key synchronisation is compared but only its frame is proved (no general no-dangling-row "
+    "invariant: it is refuted, and the guarded forms are the orphan rule and the marked-deleted theorem). "
+    "Four known findings (dangling delete-orphan rows / expunged pending child). Trusted: "
+    "Coq kernel, the hand transcription (source pin + correspondence after every operation), SQLite."
+)
+TECHNIQUE = (
+    "Coq proof (DFS/reachability with shared visited set, invariants of the presort loop for arbitrary processor "
+    "order, induction over operation histories) + T1 table regeneration + source pin + behavioural correspondence "
+    "on SQLite with a state-aware history generator"
+)
